@@ -28,7 +28,7 @@ ASSUMPTIONS = ["IEEE-double evaluation of the affine maps is exact on the genera
                "fontTools charstring compile/decompile returns the absolute rounded points it was given"]
 TRUSTED_EXTRA = ["harness/geom.py segment-level reference renderer (independent restatement used for quadratic glyphs)"]
 
-FN_STRUCT = "fun c : (glyphset * list (str * list contour)) => c01_struct (fst c) (snd c)"
+FN_STRUCT = "fun c : ((glyphset * list str) * list (str * list contour)) => c01_struct (fst (fst c)) (snd (fst c)) (snd c)"
 FN_SEM = "fun c : (Qc * glyphset * list (str * (list contour * Z))) => c01_sem (fst (fst c)) (snd (fst c)) (snd c)"
 
 
@@ -105,9 +105,22 @@ def explore(ctx):
         desc = gen_component_font(rng, n=rng.randint(12, 40) if big else None, max_depth=6 if big else 4,
                                   singular=(i % 7 == 0))
         lib = rng.choice(["ufoLib2", "defcon"])
+        visits = []
         try:
             font = build_font(desc, lib)
-            gset = OTFPreProcessor(font).process()
+            # the order in which BaseFilter hands the glyphs to the filter (decreasing computed component depth,
+            # ties in glyph-set order) is observed, not modelled: the theorem holds for every visiting order
+            from ufo2ft.filters.decomposeComponents import DecomposeComponentsFilter
+            orig_filter = DecomposeComponentsFilter.filter
+
+            def spy(self, glyph, _orig=orig_filter, _v=visits):
+                _v.append(glyph.name)
+                return _orig(self, glyph)
+            DecomposeComponentsFilter.filter = spy
+            try:
+                gset = OTFPreProcessor(font).process()
+            finally:
+                DecomposeComponentsFilter.filter = orig_filter
         except Exception as e:
             ctx.spec_failure({"font": jsonable(desc), "lib": lib}, "OTFPreProcessor raised %s: %s\n%s" % (
                 type(e).__name__, e, traceback.format_exc()[-1500:]))
@@ -130,7 +143,8 @@ def explore(ctx):
         if leftover:
             ctx.spec_failure(case, "components left after OTF pre-processing in %r" % leftover)
             continue
-        cases.append(G.tup(geom.g_glyphset(desc["glyphs"]),
+        order = list(visits)
+        cases.append(G.tup(G.tup(geom.g_glyphset(desc["glyphs"]), G.lst([G.s(n) for n in order], "str")),
                            G.lst([G.tup(G.s(n), geom.g_contours(cs)) for n, cs in obs], "(str * list contour)")))
         meta.append(case)
     vals = ctx.coq_eval(IMPORTS, FN_STRUCT, cases, chunk=8, tag="Struct")
@@ -162,6 +176,17 @@ def explore(ctx):
             tt = ufo2ft.compileOTF(build_font(desc, lib), **kw)
             buf = io.BytesIO(); tt.save(buf); buf.seek(0); tt = TTFont(buf)
         except Exception as e:
+            by = {g["name"]: g for g in desc["glyphs"]}
+            big = False
+            for g in desc["glyphs"]:
+                try:
+                    big = big or any(abs(v) > 16000 for sgm in geom.ref_resolve(by, g["name"]) for pt in flat(sgm)[1] for v in pt)
+                except Exception:
+                    pass
+            if big and isinstance(e, (ValueError, OverflowError)) or "does not fit" in str(e):
+                # nested scaled components pushed a coordinate beyond what head/CFF numbers can hold: no font exists
+                ctx.klass("outside_opentype_number_range_rejected")
+                continue
             ctx.spec_failure(case, "compileOTF raised %s: %s\n%s" % (type(e).__name__, e, traceback.format_exc()[-1500:]))
             continue
         gs = tt.getGlyphSet()
